@@ -13,18 +13,21 @@ import random
 
 import common as C
 import c19_cons as K
+import c19_dpar as G
 
 PID = "C19"
-DRIVER = [("C19", "TfPwaV.Model.Config", "Config.handle"), ("C19k", "TfPwaV.Model.ConfigC", "ConfigC.handle")]
-LEAN_TARGETS = ["TfPwaV.Props.C19", "TfPwaV.Props.C19b", "TfPwaV.Props.C19c", "TfPwaV.Props.C19d", "TfPwaV.Props.C19e", "TfPwaV.Props.C19f", "TfPwaV.Model.ConfigC"]
-PROP_MODULES = ["TfPwaV.Props.C19", "TfPwaV.Props.C19b", "TfPwaV.Props.C19c", "TfPwaV.Props.C19d", "TfPwaV.Props.C19e", "TfPwaV.Props.C19f"]
-ALL_MODULES = ["TfPwaV.Model.Config", "TfPwaV.Model.ConfigC", "TfPwaV.Model.LS", "TfPwaV.Proofs.Config", "TfPwaV.Proofs.ConfigRT", "TfPwaV.Props.C19", "TfPwaV.Props.C19b", "TfPwaV.Props.C19c", "TfPwaV.Props.C19d", "TfPwaV.Props.C19e", "TfPwaV.Props.C19f", "TfPwaV.Props.C13"]
+DRIVER = [("C19", "TfPwaV.Model.Config", "Config.handle"), ("C19k", "TfPwaV.Model.ConfigC", "ConfigC.handle"), ("C19g", "TfPwaV.Model.ConfigD", "ConfigD.handle")]
+LEAN_TARGETS = ["TfPwaV.Props.C19", "TfPwaV.Props.C19b", "TfPwaV.Props.C19c", "TfPwaV.Props.C19d", "TfPwaV.Props.C19e", "TfPwaV.Props.C19f", "TfPwaV.Props.C19g", "TfPwaV.Model.ConfigC", "TfPwaV.Model.ConfigD"]
+PROP_MODULES = ["TfPwaV.Props.C19", "TfPwaV.Props.C19b", "TfPwaV.Props.C19c", "TfPwaV.Props.C19d", "TfPwaV.Props.C19e", "TfPwaV.Props.C19f", "TfPwaV.Props.C19g"]
+ALL_MODULES = ["TfPwaV.Model.Config", "TfPwaV.Model.ConfigC", "TfPwaV.Model.ConfigD", "TfPwaV.Proofs.ConfigG", "TfPwaV.Proofs.ConfigGN", "TfPwaV.Proofs.ConfigGT", "TfPwaV.Props.C19g", "TfPwaV.Model.LS", "TfPwaV.Proofs.Config", "TfPwaV.Proofs.ConfigRT", "TfPwaV.Props.C19", "TfPwaV.Props.C19b", "TfPwaV.Props.C19c", "TfPwaV.Props.C19d", "TfPwaV.Props.C19e", "TfPwaV.Props.C19f", "TfPwaV.Props.C13"]
 ASSUMPTIONS = [
     "grammar of cards: 3- and 4-body, two-body decays (HelicityDecay) only, $top/$finals given (name/list form or dict form), candidate lists of plain names (1-3, occasionally empty or shared between slots), spins from {0,1/2,1,3/2,2} written as int / float / 'k/2', parities +-1 / missing / null, C with c_break, per-decay options p_break c_break l_list ls_list (+ has_barrier_factor as an irrelevant key), aliases m0 g0 Par bw, $include through share_dict, float / m_min m_max bounds, permuted keys; every particle name occurs at most once in a chain (name:id counters all 0)",
     "excluded by design and stated: m_min/m_max WITHOUT mass (set_min_max draws random.random()), fix_chain_val left to np.random.uniform (only names / fixed sets are compared, never initial values), mass_cut, nested dict items inside candidate lists, cyclic cards (Python RecursionError; the model returns raise:RecursionError), 3-body decays",
     "the translation of a Python card into the token line of the Lean driver (encode_card) is trusted to be faithful",
     "constraints: the Lean model ConfigC reproduces, for cards of the grammar extended by float (str / list forms), m_/mass_/g_/width_ min max, mass_/m0_ range, *_free, mass_sigma + mass_constr, gauss_constr {m,g}, constrains.decay (fix_chain_idx / fix_chain_val), fix_var, free_var, var_range, var_equal, gauss_constr, particle.equal.mass (one pair): the ORDERED vm.trainable_vars, bound_dic, vm.same_list, gauss_constr_dic and every value the loader assigns (masses, widths, reference couplings, fix_var values); compared exactly (values to 1e-12) on every constrained card. Excluded and stated: tie groups that overlap an earlier group (set_same merge branch: model answers unsupported), coef_head, decay_d, pre_trans / from_trans, params: sub-dict, gauss_constr {m: ..} on a particle WITHOUT mass (central value = a random initial mass), negative fix_chain_idx; get_fcn().gauss_constr is compared with gauss_constr_dic on 3 (quick) / 20 (thorough) cards with a 16-event phase-space sample",
     "history: the process-wide memo of per-decay factors is a parameter of the model (CacheMode byName = tree before 0e31b14, byObject = tree since); which mode the tree has is OBSERVED (history_demo) and the model in that mode is compared with two real loads in one process on 4 J^P-scan pairs; other shared state (get_chains_map lru_cache, particle.creators growth) is probed by search only",
+    "part g (Model/ConfigD, driver C19g): grammar = the cards above + per-decay dict items with has_barrier_factor / barrier_factor_norm / has_bprime / no_q0 / barrier_factor_mass / curve_style / d / unknown keys / model (default, gls-bf) / params_head (unique) / l_list (also null) / p_break (also null) / ls_list, a later dict overriding a key of an earlier one, particle-level decay_params / production_params dicts (local, in $top/$finals dict form, in the include), line-shape model of a resonance from {default, BW, BWR, BWR2, BWR_below, BWR_coupling, BWR_normal, GS_rho, x, LASS, exp, exp_com, one, an unregistered name}, coef_head naming another resonance (or nobody); malformed stream on loadable cards: unknown key, unregistered decay model, model: null, l_list excluding everything, ls_list with a forbidden pair, empty ls_list, l_list: null. Outside the model (it answers unsupported, counted in the evidence): other registered two-body decay classes (LS-decay, gls-cpv, helicity_full, helicity_parity, particle-decay; also every decay of a BWR_LS / BWR_LS2 / MultiBW(R) particle, whose class puts model: LS-decay into its decay_params), ls_selector, params_polar, disable, two decay objects with one params_head (the loader silently shares and reshapes their variables), line shapes with their own parameter tables (Flatte*, Kmatrix*, MultiBW*), a particle with coef_head that is inner particle of more than one chain or names itself (the loader rewrites coef_head and ties variables to themselves), 3-body decays, repeated names in a chain; the second pass of the loader (decay_struct) is not modelled: the malformed stream puts its defect on a decay of a produced chain so that the first pass meets it",
+    "part g observation, modelled as it is and reported in the notes: a decay-entry key d is kept in _kwargs and exported by as_config, but HelicityDecay.init_params sets self.d = 3.0 afterwards, so the entry value never reaches the barrier factor (only constrains.decay.decay_d does)",
     "Python dict = association list in insertion order; str ordering = code-point order (Lean String <)",
     "the grammar uses at most ONE $include file; with two includes and mixed alias/canonical spellings the loader USED to let the first include override the card (repaired by /repo commit 4535060; theorem alias_include_two_refuted is about the model of the unrepaired merge; two_include_demo runs on the implementation on every check and is reported as a failure if the defect returns)",
     "export -> import: the model function Card.roundTrip (as_config restricted to J, P, C, mass, width, p_break, c_break; spins / curve_style / model kwargs of the real export do not influence chains or couplings) is compared with the real as_config -> ConfigLoader on every card; proved for EVERY card that loads without a user ls_list on a produced chain (Props/C19d export_import): the export loads, same chain SET, same J/P/C/width presence, exported p_break/c_break, same (l,s) lists where no l_list; the chain ORDER is not preserved (export_import_order_refuted, reproduced on the implementation by order_demo on every run)",
@@ -780,6 +783,7 @@ def correspond(ctx, res):
         "disagreements": n_dis,
     })
     correspond_cons(ctx, res)
+    correspond_dpar(ctx, res)
 
 
 def search(ctx, res):
@@ -950,6 +954,7 @@ def search(ctx, res):
     stat["history_failures"] = hist_fail
     res.coverage.update({"search": stat})
     search_cons(ctx, res)
+    search_dpar(ctx, res)
     if stat["creators_grew"]:
         res.notes.append("every uncached get_chains_map()/topology_map call appends temporary BaseDecay objects to particle.creators of the loaded groups (%d group probes over %d cards: lists grow, particle.decay, decay[0] and creators[0] unchanged); chains, parameter names, trainable/fixed/bound sets of the same and of later loads are unchanged -> no observable effect on the property, candidate patch C14-fix_topology_map_no_register stays hygiene only" % (stat["creators_grew"], min(len(idx), n_hist)))
 
@@ -1198,6 +1203,130 @@ def search_cons(ctx, res):
         res.notes.append("names that do not exist are accepted without any check in the sections %s (fix_var / free_var raise KeyError); modelled as it is (Props/C19e `unchecked_sections_accept_unknown_names`), reported here, not counted as a failure" % acc)
 
 
+# --------------------------------------------------------------------------------------------------------------
+# part g: decay-entry parameters, decay_params / production_params, params_head, line-shape names, coef_head
+# --------------------------------------------------------------------------------------------------------------
+
+DPAR_OPS = ("chains", "ls", "params", "attrs", "export", "ties")
+
+
+def dpar_cases(ctx):
+    """(kind, cfg, share) : generated cards of the extended grammar + the malformed stream derived from them"""
+    if getattr(ctx, "_c19_dpar", None) is not None:
+        return ctx._c19_dpar
+    import sys
+    me = sys.modules[__name__]
+    n = 64 if ctx.quick else 400
+    rnd = random.Random(2147483 * ctx.seed + 77)
+    cs = [("corpus", cfg, share) for cfg, share in G_CORPUS()]
+    while len(cs) < n + len(G_CORPUS()):
+        try:
+            cfg, share = G.gen_dcard(me, rnd)
+        except AssertionError:
+            continue
+        cs.append(("gen", cfg, share))
+    obs = [G.observe(me, cfg, share) for _, cfg, share in cs]
+    n_mal = 24 if ctx.quick else 150
+    k = 0
+    for (kind, cfg, share), o in list(zip(cs, obs)):
+        if k >= n_mal:
+            break
+        if kind != "gen" or "raise" in o:
+            continue
+        m = G.malformed(me, rnd, cfg, share, o["chains"])
+        if m is None:
+            continue
+        cs.append(("mal:" + m[0], m[1], share))
+        obs.append(G.observe(me, m[1], share))
+        k += 1
+    ctx._c19_dpar = (cs, obs)
+    return ctx._c19_dpar
+
+
+def G_CORPUS():
+    p = {"$top": {"A": {"J": 1, "P": -1, "mass": 4.6}},
+         "$finals": {"B": {"J": 1, "P": -1, "mass": 2.0}, "C": {"J": 0, "P": -1, "mass": 0.5}, "D": {"J": 0, "P": -1, "mass": 0.5}},
+         "R": {"J": 1, "P": 1, "mass": 2.6, "width": 0.05}, "S": {"J": 1, "P": 1, "mass": 2.7, "width": 0.05, "coef_head": "R"},
+         "T": {"J": 1, "P": 1, "mass": 2.7, "width": 0.05, "coef_head": "R", "model": "LASS"}}
+    dat = {"dat_order": ["B", "C", "D"]}
+    out = []
+    # coef_head: two followers of one head (overlapping tie groups), same coupling counts
+    out.append(({"data": dat, "decay": {"A": [["R", "D"], ["S", "D"], ["T", "C"]], "R": ["B", "C"], "S": ["B", "C"], "T": ["B", "D"]}, "particle": copy.deepcopy(p)}, {}))
+    # coef_head with different coupling counts: Exception("Shapes are not the same.")
+    out.append(({"data": dat, "decay": {"A": [["R", "D"], ["S", "D", {"l_list": [0]}]], "R": ["B", "C"], "S": ["B", "C"]}, "particle": copy.deepcopy(p)}, {}))
+    # keyword precedence: entry > decay_params of the mother > production_params of the daughters; params_head; d
+    q = copy.deepcopy(p)
+    q["R"].update({"decay_params": {"l_list": [0], "has_barrier_factor": False}, "production_params": {"l_list": [0], "foo": 1, "no_q0": True}})
+    out.append(({"data": dat, "decay": {"A": [["R", "D", {"l_list": [2], "d": 5.0, "params_head": "HH"}]], "R": ["B", "C", {"has_barrier_factor": True}, {"model": "gls-bf"}]}, "particle": q}, {}))
+    # l_list that excludes everything: chain removed / nothing left
+    out.append(({"data": dat, "decay": {"A": [["R", "D", {"l_list": [7]}], ["S", "D"]], "R": ["B", "C"], "S": ["B", "C"]}, "particle": copy.deepcopy(p)}, {}))
+    out.append(({"data": dat, "decay": {"A": [["R", "D", {"l_list": [7]}]], "R": ["B", "C"]}, "particle": copy.deepcopy(p)}, {}))
+    # unknown decay model on a candidate chain that the cut would remove anyway: KeyError comes first
+    out.append(({"data": dat, "decay": {"A": [["R", "D", {"l_list": [7], "model": "nope"}], ["S", "D"]], "R": ["B", "C"], "S": ["B", "C"]}, "particle": copy.deepcopy(p)}, {}))
+    return out
+
+
+def correspond_dpar(ctx, res):
+    import sys
+    me = sys.modules[__name__]
+    cs, obs = dpar_cases(ctx)
+    lines = []
+    for _, cfg, share in cs:
+        enc = G.encode(me, cfg, share)
+        lines += ["C19g %s %s" % (op, enc) for op in DPAR_OPS]
+    ans = ctx.model.query(lines)
+    n_bad = n_unsup = 0
+    kinds, nontriv, feat = {}, set(), {}
+    for i, ((kind, cfg, share), o) in enumerate(zip(cs, obs)):
+        a = dict(zip(DPAR_OPS, ans[len(DPAR_OPS) * i: len(DPAR_OPS) * (i + 1)]))
+        if any(x in ("parse-error", "bad-op") for x in a.values()):
+            res.broke("C19g: the model cannot parse the card", {"case": i, "line": lines[len(DPAR_OPS) * i][:400]})
+            continue
+        mv, iv = G.model_view(a), G.impl_view(o)
+        n_unsup += any(v == "raise:unsupported" for v in mv.values() if isinstance(v, str))
+        cls = ("raise:" + o["raise"] + "@" + o["stage"]) if "raise" in o else "ok"
+        kinds[kind.split(":")[0] + " " + cls] = kinds.get(kind.split(":")[0] + " " + cls, 0) + 1
+        txt = json.dumps([cfg["decay"], cfg["particle"], share], default=str)
+        for f in ("decay_params", "production_params", "params_head", "coef_head", "l_list", "ls_list", "has_barrier_factor", "\"d\"", "BWR_LS", "LASS", "exp"):
+            if f in txt:
+                feat[f] = feat.get(f, 0) + 1
+        if "raise" not in o:
+            nontriv.add(json.dumps([o["chains"], o["attrs"], o["params"], o["same"]]))
+        d = G.compare(mv, iv)
+        if d is not None:
+            n_bad += 1
+            if n_bad <= 3:
+                res.broke("correspondence ConfigD.%s vs ConfigLoader (decay keywords / restricted (l,s) lists / names / ties)" % d[0],
+                          {"case": i, "kind": kind, "model": str(d[1])[:600], "impl": str(d[2])[:600], "config": cfg, "share": share})
+        if i == 2:
+            res.samples.append({"op": lines[len(DPAR_OPS) * i + 3][:300], "impl_attrs": iv.get("attrs"), "model_attrs": mv.get("attrs")})
+    res.coverage["decay_params"] = {"cards": len(cs), "malformed_stream": sum(1 for k, _, _ in cs if k.startswith("mal")), "outcome_kinds": kinds,
+                                    "features": feat, "distinct_nontrivial": len(nontriv), "model_unsupported_answers": n_unsup, "disagreements": n_bad}
+    res.coverage["evaluations"] = res.coverage.get("evaluations", 0) + len(cs)
+
+
+def search_dpar(ctx, res):
+    """statement-level oracles (own reading of the card, no Lean model) + determinism of the extended cards"""
+    import sys
+    me = sys.modules[__name__]
+    cs, obs = dpar_cases(ctx)
+    stat = {"cards": 0, "repeat_loads": 0, "d_ignored": 0}
+    for i, ((kind, cfg, share), o) in enumerate(zip(cs, obs)):
+        stat["cards"] += 1
+        for key, what in G.check_statement(me, cfg, share, o):
+            res.fail(key, what, {"config": cfg, "share": share, "check": key})
+        if i % 4 == 0 or ctx.suspect or not ctx.quick:
+            o2 = G.observe(me, cfg, share)
+            stat["repeat_loads"] += 1
+            if o2 != o:
+                res.fail("dpar:repeat", "second load of the same card differs in %s" % [f for f in o if o.get(f) != o2.get(f)], {"config": cfg, "share": share, "check": "dpar:repeat"})
+        if "raise" not in o and "\"d\"" in json.dumps(cfg["decay"]):
+            stat["d_ignored"] += 1
+    res.coverage["search_decay_params"] = stat
+    if stat["d_ignored"]:
+        res.notes.append("a decay-entry key `d` is stored in _kwargs (and exported by as_config) but HelicityDecay.init_params sets self.d = 3.0 afterwards: the barrier-factor radius of the entry is NOT used (%d cards); modelled as it is (ConfigD.attrs), only constrains.decay.decay_d changes d" % stat["d_ignored"])
+
+
 def replay_cons(key, cfg, share, variant):
     """re-evaluate one constraint oracle on the stored (already constrained) card"""
     import sys
@@ -1256,6 +1385,17 @@ def replay(ctx, payload):
     cfg, share = r["config"], r.get("share", {})
     if str(key).startswith("constraints:"):
         return replay_cons(key, cfg, share, r.get("variant"))
+    if str(key).startswith("dpar:"):
+        import sys
+        me = sys.modules[__name__]
+        o = G.observe(me, cfg, share)
+        same = [w for k, w in G.check_statement(me, cfg, share, o) if k == key]
+        if key == "dpar:repeat" and G.observe(me, cfg, share) != o:
+            same.append("two loads differ")
+        for w in same[:3]:
+            print("still failing:", w[:500])
+        print("REPLAY: property C19 key %s %s" % (key, "still violated" if same else "not reproduced on this tree"))
+        return 1 if same else 0
     # re-run the whole per-card statement on the stored card
     ctx._c19_cases = [(cfg, share)]
     ctx._c19_obs = {}
@@ -1319,7 +1459,7 @@ if __name__ == "__main__":
     raise SystemExit(0)
 
 MANIFEST = {
-    "text": "Lean model of the decay-card loader (decay_item, particle_item with $include, rename_params, get_decay_struct with chain_decay/cross_combine, the ls cut through C13's lsList, chain and parameter naming, DecayGroup.as_config, and ConfigLoader.add_constraints: add_decay / add_particle (set_prefix_constrains, float, gauss_constr, equal) / fix_var / free_var / var_range / var_equal / gauss_constr on the VarsManager operations they use) with theorems for every card: produced chains are trees from $top through declared decays whose leaves are exactly $finals; the cut keeps a candidate iff every decay has an allowed coupling (C13.ls_mem_iff); alias / include / key-order equivalences; export -> import (export_import: every card that loads without a user ls_list on a produced chain loads again from its export with the same chain set, J/P/C, width presence, p_break/c_break and (l,s) lists; the chain ORDER is refuted by a witness); constraint sets (fix_var / free_var accept only existing names or raise KeyError, var_range / var_equal / gauss_constr do not check names (witness), exactly one reference coupling per decay and exactly the fix_chain_idx chain coupling fixed, fix_var key order irrelevant for the ordered trainable list, free_var order visible (witness)); history independence with the shared memo as explicit state (load_independent_of_history for the memo on the decay object, refuted for the memo keyed by names). The models are compared on every run with ConfigLoader(dict) over a seeded grammar of cards (ordered chains, (l,s) lists, parameter names, export->load, ordered trainable_vars, bound_dic, same_list, gauss_constr_dic, assigned values); the implementation itself is checked for repetition independence (three loads + fresh interpreter), documented equivalences incl. constraint-key spellings and dict key order, export->load, an independent enumeration of the allowed chains, the reference-coupling convention, rejection of unknown fix_var/free_var names, get_fcn().gauss_constr, history independence of the CG factors.",
-    "note": "Proved about the models; models tied to the code by differential comparison on generated cards (60 + 50 constrained quick / 600 + 500 thorough). Validated only (not proved): equality of the constraint-key aliases m_/mass_, g_/width_, m0/mass for every key (kernel-evaluated instances + respelled variants on the implementation), float spellings, key order of var_range / gauss_constr, get_fcn().gauss_constr, other shared state than the CG memo (get_chains_map cache, creators lists), fresh-process equality. Excluded: m_min/m_max or gauss_constr{m} without mass (random by design), 3-body decays, repeated names in a chain, overlapping tie groups (set_same merge), coef_head, decay_d, pre_trans/from_trans, user ls_list for export->import.",
+    "text": "Lean model of the decay-card loader (decay_item, particle_item with $include, rename_params, get_decay_struct with chain_decay/cross_combine, the ls cut through C13's lsList, chain and parameter naming, DecayGroup.as_config, and ConfigLoader.add_constraints: add_decay / add_particle (set_prefix_constrains, float, gauss_constr, equal) / fix_var / free_var / var_range / var_equal / gauss_constr on the VarsManager operations they use) with theorems for every card: produced chains are trees from $top through declared decays whose leaves are exactly $finals; the cut keeps a candidate iff every decay has an allowed coupling (C13.ls_mem_iff); alias / include / key-order equivalences; export -> import (export_import: every card that loads without a user ls_list on a produced chain loads again from its export with the same chain set, J/P/C, width presence, p_break/c_break and (l,s) lists; the chain ORDER is refuted by a witness); constraint sets (fix_var / free_var accept only existing names or raise KeyError, var_range / var_equal / gauss_constr do not check names (witness), exactly one reference coupling per decay and exactly the fix_chain_idx chain coupling fixed, fix_var key order irrelevant for the ordered trainable list, free_var order visible (witness)); history independence with the shared memo as explicit state (load_independent_of_history for the memo on the decay object, refuted for the memo keyed by names). The models are compared on every run with ConfigLoader(dict) over a seeded grammar of cards (ordered chains, (l,s) lists, parameter names, export->load, ordered trainable_vars, bound_dic, same_list, gauss_constr_dic, assigned values); the implementation itself is checked for repetition independence (three loads + fresh interpreter), documented equivalences incl. constraint-key spellings and dict key order, export->load, an independent enumeration of the allowed chains, the reference-coupling convention, rejection of unknown fix_var/free_var names, get_fcn().gauss_constr, history independence of the CG factors. Part g (Model/ConfigD, Props/C19g): decay-entry parameters as general dicts and the way they reach the decay object (_list2decay merge, get_decay = {**production_params of the daughters, **decay_params of the mother, **entry}, class selection by `model` with KeyError for an unregistered name BEFORE the cut, split into named arguments and _kwargs / as_config options, params_head, init_params overriding d), theorems for every card: kwargs_precedence, restricted_cut_sound_complete (a candidate chain is kept iff every decay keeps a coupling after ls_list / l_list / p_break / c_break of its EFFECTIVE keywords; ls_iff_coupling ties the restricted list to C13.Allowed), chainsD_are_trees, loaded_models_registered, param_names_determined (the name list is a function of chain order, heads and restricted-list LENGTHS), gls_names_count, names_deterministic(_partial) (resonances listed once, variable-creating decay objects pairwise different), coef_ties_declared_partial (every tie made for coef_head is a declared one: totals of the two chains or position-matched couplings), no_coef_head_no_ties; exact correspondence of chains, (l,s) lists, 17 attributes and the exported option dict of every decay object, the get_params() name list (line-shape suffix table for 15 models) and the vm.same_list partition on 64 + 24 malformed (quick) / 400 + 150 (thorough) cards; statement-level oracle with its own reading of the card (effective keywords, restricted lists, chain set, g_ls counts, duplicate names, undeclared ties, repeat loads).",
+    "note": "Proved about the models; models tied to the code by differential comparison on generated cards (60 + 50 constrained quick / 600 + 500 thorough). Validated only (not proved): equality of the constraint-key aliases m_/mass_, g_/width_, m0/mass for every key (kernel-evaluated instances + respelled variants on the implementation), float spellings, key order of var_range / gauss_constr, get_fcn().gauss_constr, other shared state than the CG memo (get_chains_map cache, creators lists), fresh-process equality. Excluded: m_min/m_max or gauss_constr{m} without mass (random by design), 3-body decays, repeated names in a chain, overlapping tie groups in var_equal (set_same merge; for coef_head the tie PARTITION is compared, which covers two followers of one head), decay_d, pre_trans/from_trans, user ls_list for export->import. Part g, validated only: injectivity of the string rendering of parameter names and distinctness of chains (names_deterministic_partial proves duplicate-free SOURCES; every run checks that neither the model nor get_params() repeats a name), the converse of coef_ties_declared_partial (visit order of the chains), trainable / fixed sets after coef_head (only the partition of tied names is compared), the line-shape suffix table (hand-written mirror of init_params of 15 models, compared on generated cards), the second pass of the loader (decay_struct). Part g excluded (model answers unsupported): other decay classes incl. LS-decay via BWR_LS particles, ls_selector, params_polar, shared params_head, Flatte / Kmatrix / MultiBW line shapes, coef_head on a particle of several chains.",
     "technique": "Lean 4 proof (induction over the expansion, pigeonhole on decay paths for the recursion budget, C13 selection-rule lemmas, fold invariants of the VarsManager operations, cache-consistency invariant) + grammar-based differential testing against ConfigLoader + model-independent oracles",
 }
